@@ -65,10 +65,8 @@ func ParseTargetPattern(currentPackage string, pattern string) (TargetPattern, e
 		}
 	}
 
-	// Normalize the prefix by removing a trailing slash if present.
-	if len(prefix) > 0 && prefix[len(prefix)-1] == '/' {
-		prefix = prefix[:len(prefix)-1]
-	}
+	// Normalize the prefix by removing trailing slashes if present.
+	prefix = strings.TrimRight(prefix, "/")
 	return TargetPattern{prefix: prefix, targetPattern: targetPattern, recursive: recursive}, nil
 }
 
